@@ -1,10 +1,12 @@
-(* C12: runCommentRules as translated from runner.go on this run IS CommentSpec.run_comment_rules: for all rule lists, all
-   oracle answers, all comments at all offsets of files with any base in the FileSet, all worlds. *)
+(* C12: runCommentRules as translated from runner.go on this run, calling handleCommentMatch as translated from runner.go on
+   this run, delivers to the Report callback exactly what CommentSpec.run_comment_rules reports: for all rule lists (whose
+   At() variables are bound, as checkBoundVars guarantees), all oracle answers, all comments at all offsets of files with
+   any base in the FileSet, and ALL incoming worlds -- whatever the reused report record held. *)
 From Coq Require Import List ZArith Lia Bool Arith.
 From RG.Base Require Import Outcome GoInt GoSlice.
 From RG.Regex Require Import Utf8.
-From RG.Engine Require Import TruncateSpec RenderSpec RenderLoop CommentSpec CommentLoop.
-From RGW Require Import Gen_C12Loop Def_CommentLoop.
+From RG.Engine Require Import TruncateSpec RenderSpec RenderLoop CommentSpec CommentLoop CommentHandler.
+From RGW Require Import Gen_C12Loop Gen_C12Handler Def_CommentHandler Inst_CommentHandler Def_CommentLoop.
 Import ListNotations.
 Local Open Scope Z_scope.
 
@@ -25,12 +27,31 @@ Proof. lia. Qed.
 Lemma pos_arith0 : base + off - base = off.
 Proof. lia. Qed.
 
-Theorem gen_run_is_run_comment_rules rules w :
-  gen_run_comment_rules in_range re_match l src off text base rules w =
-  bind (run_comment_rules in_range re_match l src off text rules) (fun r => Ok (deliver w r)).
+Lemma loc_declared_nonempty cr : loc_declared cr -> r_loc (c_rule cr) <> Some [].
 Proof.
-  unfold gen_run_comment_rules, gen_runCommentRules. cbv zeta. rewrite bind_ret.
-  apply rule_loop_is_run. intros i [cr idx] w0. unfold rule_step. cbn [fst snd].
+  unfold loc_declared. destruct (r_loc (c_rule cr)) as [v|]; [|discriminate].
+  intros H He. injection He as He. subst v. destruct H as [Hd|(_ & Hne & _)]; [discriminate Hd|contradiction].
+Qed.
+
+(* after the match data of a rule is filled, the translated handler is the specified one *)
+Lemma handler_after_fill cr res md w0 :
+  loc_declared cr -> fill in_range src off text md_zero cr res = Ok md ->
+  gen_handle_w re_match l src cr md w0 = handle_w re_match l src cr md w0.
+Proof.
+  intros Hl Hf. destruct (fill_binds_loc _ _ _ _ _ _ _ Hf Hl) as (whole & Hn & Hc).
+  apply (gen_handle_is_handle_w re_match l src cr md w0 whole Hn Hc). now apply loc_declared_nonempty.
+Qed.
+
+Theorem gen_run_is_run_comment_rules rules w :
+  Forall (fun r => loc_declared (fst r)) rules ->
+  bind (gen_run_comment_rules in_range re_match l src off text base rules w) (fun w' => Ok (reports_of w')) =
+  bind (run_comment_rules in_range re_match l src off text rules)
+       (fun o => Ok (reports_of w ++ match o with Some rep => [Some rep] | None => [] end)).
+Proof.
+  intros Hdecl. unfold gen_run_comment_rules, gen_runCommentRules, reports_of. cbv zeta. rewrite bind_ret.
+  apply rule_loop_world. intros i [cr idx] w0 Hin.
+  assert (Hl : loc_declared cr) by (rewrite Forall_forall in Hdecl; exact (Hdecl _ Hin)).
+  unfold rule_step_w. cbn [fst snd].
   destruct (c_groups cr) eqn:Eg.
   - (* submatch path *)
     destruct idx as [res|]; cbn [option_map]; [|reflexivity].
@@ -44,23 +65,38 @@ Proof.
         - rewrite cnode_0_0, pos_arith0. destruct (comment_node in_range src off []); reflexivity.
         - rewrite cnode_comment_node. destruct (slice text b e) as [t|p]; cbn [bind]; [|reflexivity].
           rewrite pos_arith. destruct (comment_node in_range src (off + b) t); reflexivity. }
-    unfold fill. rewrite Eg. unfold group_caps.
-    destruct (group_caps_from in_range src off text 0 (c_names cr) res) as [caps|p]; cbn [bind md_caps md_node md_zero app]; [|reflexivity].
-    destruct (index res 0) as [r0|p]; cbn [bind]; [|reflexivity].
-    destruct (index res 1) as [r1|p]; cbn [bind]; [|reflexivity].
-    rewrite cnode_comment_node. destruct (slice text r0 r1) as [t|p]; cbn [bind]; [|reflexivity].
-    rewrite pos_arith. destruct (comment_node in_range src (off + r0) t) as [whole|p]; cbn [bind]; [|reflexivity].
-    unfold gen_handle, md_set. cbn [md_caps md_node fst].
-    destruct (handle re_match l src cr _) as [[rep|]|p]; reflexivity.
+    destruct (fill in_range src off text md_zero cr res) as [md|pf] eqn:Ef.
+    + cbn [bind]. rewrite <- (handler_after_fill cr res md w0 Hl Ef).
+      revert Ef. unfold fill. rewrite Eg. unfold group_caps.
+      destruct (group_caps_from in_range src off text 0 (c_names cr) res) as [caps|p]; cbn [bind md_caps md_node md_zero app]; [|discriminate].
+      destruct (index res 0) as [r0|p]; cbn [bind]; [|discriminate].
+      destruct (index res 1) as [r1|p]; cbn [bind]; [|discriminate].
+      rewrite cnode_comment_node. destruct (slice text r0 r1) as [t|p]; cbn [bind]; [|discriminate].
+      rewrite pos_arith. destruct (comment_node in_range src (off + r0) t) as [whole|p]; cbn [bind]; [|discriminate].
+      intros [= <-]. unfold md_set. cbn [md_caps md_node].
+      destruct (gen_handle_w re_match l src cr _ w0) as [[[|] w']|p]; reflexivity.
+    + revert Ef. unfold fill. rewrite Eg. unfold group_caps.
+      destruct (group_caps_from in_range src off text 0 (c_names cr) res) as [caps|p]; cbn [bind md_caps md_node md_zero app]; [|intros [= <-]; reflexivity].
+      destruct (index res 0) as [r0|p]; cbn [bind]; [|intros [= <-]; reflexivity].
+      destruct (index res 1) as [r1|p]; cbn [bind]; [|intros [= <-]; reflexivity].
+      rewrite cnode_comment_node. destruct (slice text r0 r1) as [t|p]; cbn [bind]; [|intros [= <-]; reflexivity].
+      rewrite pos_arith. destruct (comment_node in_range src (off + r0) t) as [whole|p]; cbn [bind]; [discriminate|intros [= <-]; reflexivity].
   - (* fast path *)
     destruct idx as [res|]; cbn [option_map]; [|reflexivity].
     rewrite !index_firstn2 by lia.
-    unfold fill. rewrite Eg. cbn [bind md_caps md_node md_zero app].
-    destruct (index res 0) as [r0|p]; cbn [bind]; [|reflexivity].
-    destruct (index res 1) as [r1|p]; cbn [bind]; [|reflexivity].
-    rewrite cnode_comment_node. destruct (slice text r0 r1) as [t|p]; cbn [bind]; [|reflexivity].
-    rewrite pos_arith. destruct (comment_node in_range src (off + r0) t) as [whole|p]; cbn [bind]; [|reflexivity].
-    unfold gen_handle, md_set. cbn [md_caps md_node fst md_zero].
-    destruct (handle re_match l src cr _) as [[rep|]|p]; reflexivity.
+    destruct (fill in_range src off text md_zero cr res) as [md|pf] eqn:Ef.
+    + cbn [bind]. rewrite <- (handler_after_fill cr res md w0 Hl Ef).
+      revert Ef. unfold fill. rewrite Eg. cbn [bind md_caps md_node md_zero app].
+      destruct (index res 0) as [r0|p]; cbn [bind]; [|discriminate].
+      destruct (index res 1) as [r1|p]; cbn [bind]; [|discriminate].
+      rewrite cnode_comment_node. destruct (slice text r0 r1) as [t|p]; cbn [bind]; [|discriminate].
+      rewrite pos_arith. destruct (comment_node in_range src (off + r0) t) as [whole|p]; cbn [bind]; [|discriminate].
+      intros [= <-]. unfold md_set. cbn [md_caps md_node md_zero].
+      destruct (gen_handle_w re_match l src cr _ w0) as [[[|] w']|p]; reflexivity.
+    + revert Ef. unfold fill. rewrite Eg. cbn [bind md_caps md_node md_zero app].
+      destruct (index res 0) as [r0|p]; cbn [bind]; [|intros [= <-]; reflexivity].
+      destruct (index res 1) as [r1|p]; cbn [bind]; [|intros [= <-]; reflexivity].
+      rewrite cnode_comment_node. destruct (slice text r0 r1) as [t|p]; cbn [bind]; [|intros [= <-]; reflexivity].
+      rewrite pos_arith. destruct (comment_node in_range src (off + r0) t) as [whole|p]; cbn [bind]; [discriminate|intros [= <-]; reflexivity].
 Qed.
 End Inst.
